@@ -19,6 +19,8 @@ enum Pseudo : int {
 
 struct ObsOptions {
    bool probe_bounds = false;      // also index every sequence from size() to size()+2 and at SIZE_MAX (C14)
+   unsigned order = 0;             // in which order a sequence is read: 0 iterate then index upwards; 1 last element first, then index downwards,
+                                   // then iterate; 2 from the end (--end()), then index upwards (clients do not all read from the front)
 };
 
 struct ObsCounters {
